@@ -208,6 +208,10 @@ func vHdrMap(class string) map[string][]byte {
 		return map[string][]byte{"h": {}}
 	case "nilval":
 		return map[string][]byte{"h": nil}
+	case "mixed2":
+		return map[string][]byte{"p": []byte("pv"), "q": nil}
+	case "mixed3":
+		return map[string][]byte{"a": []byte("trace-1"), "n": nil, "z": {}}
 	}
 	panic("unknown header class " + class)
 }
@@ -225,7 +229,10 @@ func vHdrString(h map[string][]byte) string {
 	parts := make([]string, 0, len(keys))
 	for _, k := range keys {
 		v := h[k]
-		if len(v) > 8 {
+		if v == nil {
+			// a nil header value is stored as such (length -1) and is not an empty one
+			parts = append(parts, k+"=~nil")
+		} else if len(v) > 8 {
 			parts = append(parts, fmt.Sprintf("%s=#%d:%08x", k, len(v), crc32.ChecksumIEEE(v)))
 		} else {
 			parts = append(parts, k+"="+string(v))
